@@ -4,7 +4,7 @@ from __future__ import annotations
 import ast
 
 from ..core import Ctx
-from ..match import arg, call_name, calls, facts_at, local_defs, resolve, single_def, stores
+from ..match import Fact, arg, call_name, calls, fact_of, facts_at, local_defs, rchain, resolve, same_resolved, stores
 from ..model import AnalysisError, FuncInfo, ancestors, chain, const_value, enclosing_stmt, norm, strip_cast, walk_no_nested
 
 LEVEL = "other"
@@ -20,161 +20,492 @@ EXPLANATION = (
 )
 
 RC = "ipv8/requestcache.py"
+TABLE = "self._identifiers"
+
+
+# ------------------------------------------------------------------------------------ recognisers (semantic, not textual)
+def _is_table(fi: FuncInfo, e: ast.AST | None) -> bool:
+    """e denotes the identifier table: `self._identifiers` itself or a local alias of it.  An alias is only the same
+    dict while the attribute is not rebound in this function (the table is only ever mutated in place)."""
+    if e is None:
+        return False
+    if chain(strip_cast(e)) == TABLE:
+        return True
+    if rchain(fi, e) != TABLE:
+        return False
+    return not stores(fi, TABLE)
+
+
+def _tcalls(fi: FuncInfo, meth: str) -> list[ast.Call]:
+    """calls `<table>.<meth>(...)` where <table> is self._identifiers or an alias of it"""
+    return [c for c in calls(fi) if isinstance(c.func, ast.Attribute) and c.func.attr == meth and _is_table(fi, c.func.value)]
+
+
+def _tstores(fi: FuncInfo) -> list[ast.Assign]:
+    """statements `<table>[key] = value`"""
+    out = []
+    for n in walk_no_nested(fi.node):
+        if isinstance(n, ast.Assign) and len(n.targets) == 1 and isinstance(n.targets[0], ast.Subscript) and _is_table(fi, n.targets[0].value):
+            out.append(n)
+    return out
+
+
+def _tdeletes(fi: FuncInfo) -> list[tuple[ast.Delete, ast.Subscript]]:
+    """statements `del <table>[key]`"""
+    return [(n, t) for n in walk_no_nested(fi.node) if isinstance(n, ast.Delete) for t in n.targets
+            if isinstance(t, ast.Subscript) and _is_table(fi, t.value)]
 
 
 def _ident_call_ok(fi: FuncInfo, e: ast.AST, num: str, pre: str) -> bool:
     e = resolve(fi, e)
-    return isinstance(e, ast.Call) and chain(e.func) == "self._create_identifier" and norm(arg(e, 0)) == num and norm(arg(e, 1)) == pre
+    if not (isinstance(e, ast.Call) and chain(e.func) == "self._create_identifier"):
+        return False
+    a0, a1 = arg(e, 0, "number"), arg(e, 1, "prefix")
+    return a0 is not None and a1 is not None and norm(a0) == num and norm(a1) == pre
 
 
-def rule_pop(ctx: Ctx) -> None:
-    repo = ctx.repo
-    fi = [f for f in repo.cls("RequestCache", RC).methods.values() if f.name == "pop"]
-    # overloads: the real implementation is the last definition
-    impl = [f for f in repo.module(RC).all_functions if f.qualname == "RequestCache.pop" and not any("overload" in d for d in f.decorator_names())]
-    ctx.anchor(impl, "RequestCache.pop implementation")
-    fi = impl[0]
-    cfg = ctx.cfg(fi)
-    pops = ctx.anchor(calls(fi, "self._identifiers.pop"), "_identifiers.pop in pop")
-    for p in pops:
-        st = enclosing_stmt(p)
-        var = st.targets[0].id if isinstance(st, ast.Assign) and isinstance(st.targets[0], ast.Name) else None
-        cancels = [c for c in calls(fi, "self.cancel_pending_task") if chain(arg(c, 0)) == var]
-        cn = [n for c in cancels for n in cfg.nodes_for(c)]
-        ok = var is not None and bool(cn) and all(cfg.always_followed_by(pn, cn) for pn in cfg.nodes_for(p))
-        ctx.check(ok, "pop-cancels", fi, p, "after _identifiers.pop(id) every normal path cancels that cache's timeout task",
-                  "a claimed request keeps its timeout task: the timeout fires after the response was handled")
-        ctx.check(_ident_call_ok(fi, arg(p, 0), fi.params()[2], fi.params()[1]) and len(p.args) == 1, "pop-cancels", fi, p,
-                  "pop removes exactly _create_identifier(number, prefix) and raises KeyError when absent",
-                  "pop uses a different identifier or silently tolerates a missing cache (a late response would find a default)")
-        rets = [r for r in walk_no_nested(fi.node) if isinstance(r, ast.Return) and chain(r.value) == var]
-        ctx.check(bool(rets), "pop-cancels", fi, p, "pop returns the removed cache", "pop does not return the removed cache")
+def _absent_fact(fi: FuncInfo, f: Fact, is_key) -> bool:
+    """The fact says `key is not registered in the table`:  key not in T  /  T.get(key) is None."""
+    if f.op == "in" and not f.pos:
+        return _is_table(fi, f.right) and is_key(f.left)
+    if f.op == "is" and f.pos and const_value(f.right) is None and isinstance(f.right, ast.Constant):
+        g = resolve(fi, f.left)
+        if isinstance(g, ast.Call) and isinstance(g.func, ast.Attribute) and g.func.attr == "get" and _is_table(fi, g.func.value) and g.args:
+            default_none = len(g.args) == 1 and not g.keywords or (len(g.args) == 2 and isinstance(g.args[1], ast.Constant) and g.args[1].value is None)
+            return default_none and is_key(g.args[0])
+    return False
 
 
+def _present_fact(fi: FuncInfo, f: Fact, is_key=lambda e: True) -> bool:
+    """The fact says `key is registered`:  key in T  /  T.get(key) is not None."""
+    return _absent_fact(fi, Fact(f.op, f.left, f.right, not f.pos, f.atom), is_key)
+
+
+def _is_none(e: ast.AST | None) -> bool:
+    return e is None or (isinstance(e, ast.Constant) and e.value is None)
+
+
+# --- where do the elements of an iteration come from?  kinds: cache (a value of the table / the cache parameter),
+#     pair (an entry of <cache>.managed_futures), future (first component of a pair), pairs (a whole managed_futures list)
+def _bind(target: ast.AST, kind: str, env: dict) -> bool:
+    if isinstance(target, ast.Name):
+        env[target.id] = kind
+        return True
+    if isinstance(target, (ast.Tuple, ast.List)) and kind == "pair" and len(target.elts) == 2 and all(isinstance(t, ast.Name) for t in target.elts):
+        env[target.elts[1].id] = "other"
+        env[target.elts[0].id] = "future"
+        return True
+    if isinstance(target, (ast.Tuple, ast.List)) and kind == "item" and len(target.elts) == 2 and all(isinstance(t, ast.Name) for t in target.elts):
+        env[target.elts[0].id] = "other"
+        env[target.elts[1].id] = "cache"
+        return True
+    return False
+
+
+def _unbind(target: ast.AST, env: dict) -> None:
+    for n in ast.walk(target):
+        if isinstance(n, ast.Name):
+            env.pop(n.id, None)
+
+
+def _elem_kind(fi: FuncInfo, e: ast.AST, env: dict, depth: int = 3) -> str | None:
+    e = strip_cast(e)
+    if isinstance(e, ast.Name):
+        if e.id in env:
+            return env[e.id]
+        r = resolve(fi, e)
+        return _elem_kind(fi, r, env, depth - 1) if r is not e and depth > 0 else None
+    if isinstance(e, ast.Subscript) and isinstance(e.slice, ast.Constant) and e.slice.value == 0 and _elem_kind(fi, e.value, env, depth) == "pair":
+        return "future"
+    if isinstance(e, ast.Attribute) and e.attr == "managed_futures" and _elem_kind(fi, e.value, env, depth) == "cache":
+        return "pairs"
+    return None
+
+
+def _seq_kind(fi: FuncInfo, e: ast.AST, env: dict, depth: int = 4) -> str | None:
+    """Kind of the elements produced by iterating e completely (None: unknown, filtered or partial)."""
+    e = strip_cast(e)
+    if depth <= 0:
+        return None
+    if isinstance(e, ast.Name) and e.id not in env:
+        r = resolve(fi, e)
+        return _seq_kind(fi, r, env, depth - 1) if r is not e else None
+    if _elem_kind(fi, e, env) == "pairs":
+        return "pair"
+    if isinstance(e, ast.Call):
+        c = chain(e.func)
+        if c in ("list", "tuple", "iter") and len(e.args) == 1 and not e.keywords and not isinstance(e.args[0], ast.Starred):
+            return _seq_kind(fi, e.args[0], env, depth - 1)
+        if isinstance(e.func, ast.Attribute) and e.func.attr == "values" and not e.args and not e.keywords and _is_table(fi, e.func.value):
+            return "cache"
+        if isinstance(e.func, ast.Attribute) and e.func.attr == "items" and not e.args and not e.keywords and _is_table(fi, e.func.value):
+            return "item"
+        if c is not None and (c == "chain.from_iterable" or c.endswith(".chain.from_iterable")) and len(e.args) == 1 and not e.keywords:
+            return "pair" if _seq_kind(fi, e.args[0], env, depth - 1) == "pairs" else None
+        if c is not None and (c == "chain" or c.endswith("itertools.chain")) and len(e.args) == 1 and isinstance(e.args[0], ast.Starred) and not e.keywords:
+            return "pair" if _seq_kind(fi, e.args[0].value, env, depth - 1) == "pairs" else None
+        return None
+    if isinstance(e, (ast.ListComp, ast.GeneratorExp)):
+        env2 = dict(env)
+        for g in e.generators:
+            if g.ifs or g.is_async:
+                return None
+            k = _seq_kind(fi, g.iter, env2, depth - 1)
+            if k is None or not _bind(g.target, k, env2):
+                return None
+        return _elem_kind(fi, e.elt, env2)
+    return None
+
+
+def _site_kind(fi: FuncInfo, e: ast.AST, base_env: dict) -> tuple[str | None, list[ast.For]]:
+    """Kind of expression e at its place, from the enclosing for-statements (outermost first) + the loops that bind it."""
+    loops = [a for a in ancestors(e) if isinstance(a, (ast.For, ast.AsyncFor))]
+    loops = [l for l in loops if any(x is fi.node for x in ancestors(l))]
+    env = dict(base_env)
+    for l in reversed(loops):
+        _unbind(l.target, env)
+        k = _seq_kind(fi, l.iter, env)
+        if k is not None:
+            _bind(l.target, k, env)
+    return _elem_kind(fi, e, env), loops
+
+
+def _complete(loops: list[ast.For]) -> bool:
+    """no iteration is cut short: no break / return inside, nothing in the loop's else-part"""
+    return bool(loops) and not any(isinstance(x, (ast.Break, ast.Return)) for l in loops for x in ast.walk(l))
+
+
+def _only_done_guards(fi: FuncInfo, facts: list[Fact], fut: ast.AST) -> bool:
+    """every condition on the way to the call only skips futures for which the call is a no-op (done / cancelled / None)"""
+    for f in facts:
+        l = resolve(fi, f.left)
+        if f.op == "truthy" and not f.pos and isinstance(l, ast.Call) and isinstance(l.func, ast.Attribute) and l.func.attr in ("done", "cancelled") \
+                and norm(l.func.value) == norm(fut) and not l.args:
+            continue
+        if f.op == "is" and not f.pos and _is_none(f.right) and norm(f.left) == norm(fut):
+            continue
+        if f.op == "truthy" and f.pos and norm(f.left) == norm(fut):
+            continue
+        return False
+    return True
+
+
+def _string_parts(e: ast.AST) -> list[tuple[str, str]] | None:
+    """A string-building expression as [('lit', text) | ('val', source)]: f-string, '%'-format, str.format, '+'."""
+    if isinstance(e, ast.Constant) and isinstance(e.value, str):
+        return [("lit", e.value)] if e.value else []
+    if isinstance(e, ast.JoinedStr):
+        out: list[tuple[str, str]] = []
+        for v in e.values:
+            if isinstance(v, ast.FormattedValue):
+                if v.format_spec is not None or v.conversion not in (-1, 115):
+                    return None
+                out.append(("val", norm(v.value)))
+            else:
+                p = _string_parts(v)
+                if p is None:
+                    return None
+                out.extend(p)
+        return out
+    if isinstance(e, ast.Call) and chain(e.func) == "str" and len(e.args) == 1 and not e.keywords:
+        return [("val", norm(e.args[0]))]
+    if isinstance(e, ast.BinOp) and isinstance(e.op, ast.Add):
+        # an operand of str '+' that is a plain name is a string value itself
+        a, b = ([("val", x.id)] if isinstance(x, ast.Name) else _string_parts(x) for x in (e.left, e.right))
+        return None if a is None or b is None else a + b
+    fmt, vals, holes = None, None, None
+    if isinstance(e, ast.BinOp) and isinstance(e.op, ast.Mod) and isinstance(e.left, ast.Constant) and isinstance(e.left.value, str):
+        fmt, holes = e.left.value, ("%s", "%d")
+        vals = list(e.right.elts) if isinstance(e.right, ast.Tuple) else [e.right]
+    elif isinstance(e, ast.Call) and isinstance(e.func, ast.Attribute) and e.func.attr == "format" and isinstance(e.func.value, ast.Constant) \
+            and isinstance(e.func.value.value, str) and not e.keywords and not any(isinstance(a, ast.Starred) for a in e.args):
+        fmt, holes, vals = e.func.value.value, ("{}",), list(e.args)
+    if fmt is None:
+        return None
+    out, i, lit = [], 0, ""
+    vals = list(vals)
+    while i < len(fmt):
+        h = next((h for h in holes if fmt.startswith(h, i)), None)
+        if h is not None:
+            if not vals:
+                return None
+            if lit:
+                out.append(("lit", lit))
+                lit = ""
+            out.append(("val", norm(vals.pop(0))))
+            i += len(h)
+        elif fmt[i] in "%{}":
+            return None
+        else:
+            lit += fmt[i]
+            i += 1
+    if lit:
+        out.append(("lit", lit))
+    return None if vals else out
+
+
+# ------------------------------------------------------------------------------------ rules
 def _impl(ctx: Ctx, name: str) -> FuncInfo:
     impl = [f for f in ctx.repo.module(RC).all_functions if f.qualname == f"RequestCache.{name}" and not any("overload" in d for d in f.decorator_names())]
     ctx.anchor(impl, f"RequestCache.{name}")
     return impl[-1]
 
 
+def rule_pop(ctx: Ctx) -> None:
+    # overloads: the real implementation is the definition without @overload
+    fi = _impl(ctx, "pop")
+    cfg = ctx.cfg(fi)
+    pops = ctx.anchor(_tcalls(fi, "pop"), "_identifiers.pop in pop")
+    for p in pops:
+        st = enclosing_stmt(p)
+        var = st.targets[0].id if isinstance(st, ast.Assign) and len(st.targets) == 1 and isinstance(st.targets[0], ast.Name) and strip_cast(st.value) is p else None
+        cancels = [c for c in calls(fi, "self.cancel_pending_task") if var is not None and (chain(arg(c, 0, "name")) == var)]
+        cn = [n for c in cancels for n in cfg.nodes_for(c)]
+        ok = var is not None and bool(cn) and all(cfg.always_followed_by(pn, cn) for pn in cfg.nodes_for(p))
+        ctx.check(ok, "pop-cancels", fi, p, "after _identifiers.pop(id) every normal path cancels that cache's timeout task",
+                  "a claimed request keeps its timeout task: the timeout fires after the response was handled")
+        ctx.check(_ident_call_ok(fi, arg(p, 0), fi.params()[2], fi.params()[1]) and len(p.args) == 1 and not p.keywords, "pop-cancels", fi, p,
+                  "pop removes exactly _create_identifier(number, prefix) and raises KeyError when absent",
+                  "pop uses a different identifier or silently tolerates a missing cache (a late response would find a default)")
+        rets = [r for r in walk_no_nested(fi.node) if isinstance(r, ast.Return) and r.value is not None and var is not None and chain(strip_cast(r.value)) == var]
+        ctx.check(bool(rets), "pop-cancels", fi, p, "pop returns the removed cache", "pop does not return the removed cache")
+
+
 def rule_on_timeout(ctx: Ctx) -> None:
     fi = _impl(ctx, "_on_timeout")
     cfg = ctx.cfg(fi)
     cache = fi.params()[1]
+
+    def is_key(e):
+        return _ident_call_ok(fi, e, f"{cache}.number", f"{cache}.prefix")
+
     ucalls = [c for c in calls(fi) if chain(c.func) == f"{cache}.on_timeout"]
     ctx.check(len(ucalls) == 1 and not any(isinstance(a, (ast.For, ast.While)) for a in ancestors(ucalls[0])) if ucalls else False,
               "timeout-unregisters-first", fi, fi.node, "cache.on_timeout() is called exactly once", "the timeout callback is called more or less than once")
-    pops = calls(fi, "self._identifiers.pop")
-    ctx.anchor(pops, "_identifiers.pop in _on_timeout")
-    for p in pops:
-        ctx.check(_ident_call_ok(fi, arg(p, 0), f"{cache}.number", f"{cache}.prefix"), "timeout-unregisters-first", fi, p,
+    # removal of the identifier:  T.pop(id) / T.pop(id, default) / del T[id]
+    removals = [(p, arg(p, 0)) for p in _tcalls(fi, "pop")] + [(d, t.slice) for d, t in _tdeletes(fi)]
+    ctx.anchor(removals, "_identifiers.pop in _on_timeout")
+    for p, key in removals:
+        ctx.check(key is not None and is_key(key), "timeout-unregisters-first", fi, p,
                   "the expired cache's own identifier is removed", "_on_timeout removes a different identifier")
-    pn = [n for p in pops for n in cfg.nodes_for(p)]
-    in_conds = [n for n in cfg.nodes if n.kind == "cond" and isinstance(n.ast, ast.Compare) and isinstance(n.ast.ops[0], ast.In)
-                and chain(n.ast.comparators[0]) == "self._identifiers"]
+    pn = [n for p, _ in removals for n in cfg.nodes_for(p)]
+
+    def absent_edge(a, b, lab) -> bool:
+        # leaving a test with the outcome "this identifier is not registered"
+        return a.kind == "cond" and lab in (True, False) and _absent_fact(fi, fact_of(a.ast, lab), is_key)
+
     for u in ucalls:
         for un in cfg.nodes_for(u):
-            r = cfg.reach(cut_out_normal=pn, cut_edge=lambda a, b, lab: a in in_conds and lab is False)
+            r = cfg.reach(cut_out_normal=pn, cut_edge=absent_edge)
             ctx.check(un not in r, "timeout-unregisters-first", fi, u, "identifier removed (or already absent) before the user callback runs",
                       "on_timeout runs while the identifier is still registered: a pop from inside the callback, or a late response, resolves the request a second time")
-    sets = [c for c in calls(fi) if call_name(c) in ("set_result", "set_exception")]
+    sets = [c for c in calls(fi) if call_name(c) in ("set_result", "set_exception") and isinstance(c.func, ast.Attribute)]
     ctx.floor("timeout-unregisters-first.futures", len(sets), 2)
+    visited = False
     for s in sets:
         fs = facts_at(cfg, s)
-        base = chain(s.func.value)
-        ok = any(f.op == "truthy" and not f.pos and isinstance(f.left, ast.Call) and chain(f.left.func) == f"{base}.done" for f in fs)
+        base = s.func.value
+        ok = any(f.op == "truthy" and not f.pos and isinstance(resolve(fi, f.left), ast.Call) and isinstance(resolve(fi, f.left).func, ast.Attribute)
+                 and resolve(fi, f.left).func.attr == "done" and norm(resolve(fi, f.left).func.value) == norm(base) for f in fs)
         un = [n for u in ucalls for n in cfg.nodes_for(u)]
         after = all(cfg.must_complete(sn, un) for sn in cfg.nodes_for(s))
         ctx.check(ok and after, "timeout-unregisters-first", fi, s, "managed future completed only if not done, after the callback",
                   "a tied future is completed twice or before the timeout callback", [str(f) for f in fs])
-    loops = [l for l in walk_no_nested(fi.node) if isinstance(l, ast.For)]
-    ok = any(norm(l.iter) == f"{cache}.managed_futures" and not any(isinstance(x, (ast.Break, ast.Return)) for x in ast.walk(l)) for l in loops)
-    ctx.check(ok, "timeout-unregisters-first", fi, fi.node, "every managed future is visited", "not all futures tied to the cache are completed on timeout")
+        kind, loops = _site_kind(fi, base, {cache: "cache"})
+        visited = visited or (kind == "future" and _complete(loops))
+    ctx.check(visited, "timeout-unregisters-first", fi, fi.node, "every managed future is visited", "not all futures tied to the cache are completed on timeout")
+
+
+def _delay_leaves(ctx: Ctx, fi: FuncInfo, e: ast.AST, bind: dict[str, str], depth: int = 3) -> list[str]:
+    """Source texts (parameters of helpers substituted by the caller's arguments) of the values a delay expression can take."""
+    e = strip_cast(e)
+    if depth <= 0:
+        return [norm(e)]
+    if isinstance(e, ast.IfExp):
+        return _delay_leaves(ctx, fi, e.body, bind, depth) + _delay_leaves(ctx, fi, e.orelse, bind, depth)
+    if isinstance(e, ast.Name) and e.id not in fi.params():
+        out = []
+        for _, v, idx in local_defs(fi, e.id):
+            out += _delay_leaves(ctx, fi, v, bind, depth - 1) if v is not None and idx is None else ["?"]
+        return out or [e.id]
+    if isinstance(e, ast.Call) and chain(e.func) is not None and chain(e.func).startswith("self.") and chain(e.func).count(".") == 1:
+        # a helper method that selects the delay: its return values, with parameters bound to our arguments
+        out = []
+        for tgt in ctx.repo.resolve_call(fi, e) or []:
+            if not isinstance(tgt, FuncInfo) or tgt.is_async:
+                return ["?"]
+            ps = tgt.params()[1:]
+            b2 = {}
+            for i, a in enumerate(e.args):
+                if isinstance(a, ast.Starred) or i >= len(ps):
+                    return ["?"]
+                b2[ps[i]] = _subst(norm(a), bind)
+            for k in e.keywords:
+                if k.arg is None:
+                    return ["?"]
+                b2[k.arg] = _subst(norm(k.value), bind)
+            rets = [r for r in walk_no_nested(tgt.node) if isinstance(r, ast.Return)]
+            for r in rets:
+                out += _delay_leaves(ctx, tgt, r.value, b2, depth - 1) if r.value is not None else ["None"]
+        return out or ["?"]
+    return [_subst_expr(e, bind)]
+
+
+def _subst(text: str, bind: dict[str, str]) -> str:
+    return bind.get(text, text)
+
+
+def _subst_expr(e: ast.AST, bind: dict[str, str]) -> str:
+    # `<param>.attr` / `<param>` of a helper, written in the caller's terms
+    if isinstance(e, ast.Attribute) and isinstance(e.value, ast.Name) and e.value.id in bind:
+        return f"{bind[e.value.id]}.{e.attr}"
+    if isinstance(e, ast.Name) and e.id in bind:
+        return bind[e.id]
+    return norm(e)
 
 
 def rule_add(ctx: Ctx) -> None:
     fi = _impl(ctx, "add")
     cfg = ctx.cfg(fi)
     cache = fi.params()[1]
-    sts = [s for s, t in stores(fi, "self._identifiers[]")]
+
+    def shut(f: Fact, pos: bool) -> bool:
+        return f.op == "truthy" and f.pos is pos and chain(resolve(fi, f.left)) == "self._shutdown"
+
+    def locked(n) -> bool:
+        return any(isinstance(a, ast.With) and any(chain(i.context_expr) == "self.lock" for i in a.items) for a in ancestors(n))
+
+    sts = _tstores(fi)
     ctx.anchor(sts, "_identifiers[...] = cache in add")
     for st in sts:
         fs = facts_at(cfg, st)
         key = st.targets[0].slice
-        not_shut = any(f.op == "truthy" and not f.pos and chain(f.left) == "self._shutdown" for f in fs)
-        free = any(f.op == "in" and not f.pos and norm(f.left) == norm(key) and chain(f.right) == "self._identifiers" for f in fs)
-        locked = any(isinstance(a, ast.With) and any(chain(i.context_expr) == "self.lock" for i in a.items) for a in ancestors(st))
+        not_shut = any(shut(f, False) for f in fs)
+        free = any(_absent_fact(fi, f, lambda e: same_resolved(fi, e, key)) for f in fs)
         ident = _ident_call_ok(fi, key, f"{cache}.number", f"{cache}.prefix")
-        ctx.check(not_shut and free and locked and ident and chain(st.value) == cache, "add-gates", fi, st,
+        ctx.check(not_shut and free and locked(st) and ident and chain(st.value) == cache, "add-gates", fi, st,
                   "store dominated by not _shutdown and identifier not in _identifiers, under the lock, keyed by _create_identifier(number, prefix)",
-                  f"a cache can be added after shutdown / over a live identifier / outside the lock (not_shutdown={not_shut} free={free} locked={locked} ident={ident})",
+                  f"a cache can be added after shutdown / over a live identifier / outside the lock (not_shutdown={not_shut} free={free} locked={locked(st)} ident={ident})",
                   [str(f) for f in fs])
-        regs = [c for c in calls(fi, "self.register_task") if chain(arg(c, 0)) == cache and chain(arg(c, 1)) == "self._on_timeout" and chain(arg(c, 2)) == cache
-                and arg(c, None, "delay") is not None]
+        regs = [c for c in calls(fi, "self.register_task") if chain(arg(c, 0, "name")) == cache and chain(arg(c, 1, "task")) == "self._on_timeout"
+                and chain(arg(c, 2)) == cache and arg(c, None, "delay") is not None]
         rn = [n for c in regs for n in cfg.nodes_for(c)]
         ok = bool(rn) and all(cfg.always_followed_by(sn, rn) for sn in cfg.nodes_for(st))
         ctx.check(ok, "add-gates", fi, st, "every registered cache gets its timeout task register_task(cache, _on_timeout, cache, delay=..)",
                   "a cache is stored without a timeout task: it is never resolved if no response arrives")
         for c in regs:
-            d = resolve(fi, arg(c, None, "delay"))
-            defs = [x for x in local_defs(fi, "timeout_delay")]
-            ok_d = chain(arg(c, None, "delay")) == "timeout_delay" and any(v is not None and norm(v) == f"{cache}.timeout_delay" for _, v, _ in defs)
+            leaves = _delay_leaves(ctx, fi, arg(c, None, "delay"), {})
+            ok_d = f"{cache}.timeout_delay" in leaves
             ctx.check(ok_d, "add-gates", fi, c, "timeout delay is the cache's timeout_delay (or the passthrough override)",
-                      "the timeout task is not scheduled with the cache's own timeout_delay")
-    # duplicate / shutdown branches return None and the shutdown branch cancels tied futures
+                      "the timeout task is not scheduled with the cache's own timeout_delay", [f"delay values: {sorted(set(leaves))}"])
+    # success is reported only after the store: every other way out (shutdown, duplicate) returns None
+    sn = [n for st in sts for n in cfg.nodes_for(st)]
     for r in [r for r in walk_no_nested(fi.node) if isinstance(r, ast.Return)]:
         fs = facts_at(cfg, r)
-        if any(f.op == "truthy" and f.pos and chain(f.left) == "self._shutdown" for f in fs):
-            ctx.check(r.value is None or const_value(r.value) is None, "add-gates", fi, r, "add after shutdown returns None", "add after shutdown reports success")
-            cancels = [c for c in calls(fi) if call_name(c) == "cancel" and any(f.op == "truthy" and f.pos and chain(f.left) == "self._shutdown" for f in facts_at(cfg, c))]
-            lp = [l for l in walk_no_nested(fi.node) if isinstance(l, ast.For) and norm(l.iter) == f"{cache}.managed_futures"]
-            ctx.check(bool(cancels) and bool(lp), "add-gates", fi, r, "futures of a cache refused at shutdown are cancelled",
-                      "futures tied to a cache that is refused after shutdown are left pending forever")
-        if any(f.op == "in" and f.pos and chain(f.right) == "self._identifiers" for f in fs):
-            ctx.check(r.value is None or const_value(r.value) is None, "add-gates", fi, r, "duplicate add returns None", "duplicate add reports success")
+        stored = all(cfg.must_complete(n, sn) for n in cfg.nodes_for(r))
+        if any(shut(f, True) for f in fs):
+            ctx.check(_is_none(r.value), "add-gates", fi, r, "add after shutdown returns None", "add after shutdown reports success")
+        elif any(_present_fact(fi, f) for f in fs):
+            ctx.check(_is_none(r.value), "add-gates", fi, r, "duplicate add returns None", "duplicate add reports success")
+        elif not stored:
+            ctx.check(_is_none(r.value), "add-gates", fi, r, "add returns None unless the cache was stored", "add reports success without having stored the cache")
+    # the shutdown branch cancels the futures tied to the refused cache
+    cancels = []
+    for c in calls(fi):
+        if call_name(c) == "cancel" and isinstance(c.func, ast.Attribute) and any(shut(f, True) for f in facts_at(cfg, c)):
+            kind, loops = _site_kind(fi, c.func.value, {cache: "cache"})
+            if kind == "future" and _complete(loops):
+                cancels.append((c, loops))
+    ctx.check(bool(cancels), "add-gates", fi, fi.node, "futures of a cache refused at shutdown are cancelled",
+              "futures tied to a cache that is refused after shutdown are left pending forever")
+    if cancels:
+        ln = [n for _, loops in cancels for n in cfg.nodes_for(loops[-1])]
+        conds = [n for n in cfg.nodes if n.kind == "cond" and chain(resolve(fi, n.ast)) == "self._shutdown"]
+        firsts = [v for n in conds for v, lab in n.succ if lab is True]
+        r = cfg.reach(firsts, cut_nodes=ln, follow_exc=False)
+        ctx.check(bool(firsts) and cfg.exit not in r, "add-gates", fi, cancels[0][0], "every refusal at shutdown passes the loop that cancels the tied futures",
+                  "a path refuses the cache at shutdown without cancelling its futures")
     # NumberCache.__init__
     ni = ctx.repo.method("NumberCache", "__init__", RC)
     cfgn = ctx.cfg(ni)
     p = ni.params()
     for st, t in stores(ni, ["self._prefix", "self._number"]):
         fs = facts_at(cfgn, st)
-        ok = any(f.op == "truthy" and not f.pos and isinstance(f.left, ast.Call) and chain(f.left.func) == f"{p[1]}.has"
-                 and [norm(a) for a in f.left.args] == [p[2], p[3]] for f in fs)
+        ok = any(_has_fact(ni, f, p[1], p[2], p[3]) for f in fs)
         ctx.check(ok, "duplicate-guard", ni, st, "NumberCache construction dominated by not request_cache.has(prefix, number)",
                   "a second request can take a (prefix, number) identity that is still outstanding", [str(f) for f in fs])
-    fu = ctx.repo.method("RandomNumberCache", "find_unclaimed_identifier", RC)
-    cfgf = ctx.cfg(fu)
-    brk = [b for b in ast.walk(fu.node) if isinstance(b, ast.Break)]
-    ok = bool(brk) and all(any(f.op == "truthy" and not f.pos and isinstance(f.left, ast.Call) and (chain(f.left.func) or "").endswith(".has")
-                               and norm(f.left.args[1]) == "number" for f in facts_at(cfgf, b)) for b in brk)
-    loops = [l for l in walk_no_nested(fu.node) if isinstance(l, ast.For)]
-    ok = ok and bool(loops) and any(isinstance(s, ast.Raise) for s in loops[0].orelse)
-    ctx.check(ok, "duplicate-guard", fu, fu.node, "random identifier accepted only if not in use; exhaustion raises",
-              "find_unclaimed_identifier can return a number that is in use")
+    _find_unclaimed(ctx)
     # has / get use the same identifier construction
     for name in ("has", "get"):
         f2 = _impl(ctx, name)
         cs = calls(f2, "self._create_identifier")
-        ok = len(cs) == 1 and norm(arg(cs[0], 0)) == f2.params()[2] and norm(arg(cs[0], 1)) == f2.params()[1]
+        ok = len(cs) == 1 and _ident_call_ok(f2, cs[0], f2.params()[2], f2.params()[1])
         ctx.check(ok, "duplicate-guard", f2, f2.node, f"{name} keys by _create_identifier(number, prefix)", f"{name} builds a different identifier than add")
     ci = _impl(ctx, "_create_identifier")
     rets = [r for r in walk_no_nested(ci.node) if isinstance(r, ast.Return)]
-    ok = len(rets) == 1 and isinstance(rets[0].value, ast.JoinedStr) and \
-        [norm(v.value) for v in rets[0].value.values if isinstance(v, ast.FormattedValue)] == [ci.params()[2], ci.params()[1]]
+    parts = _string_parts(resolve(ci, rets[0].value)) if len(rets) == 1 and rets[0].value is not None else None
+    ok = parts is not None and [v for k, v in parts if k == "val"] == [ci.params()[2], ci.params()[1]]
     ctx.check(ok, "duplicate-guard", ci, ci.node, "identifier = f'{prefix}:{number}'", "identifier no longer determined by (prefix, number)")
+
+
+def _has_fact(fi: FuncInfo, f: Fact, recv: str, prefix: str, number: str) -> bool:
+    """fact `not <recv>.has(prefix, number)`"""
+    if not (f.op == "truthy" and not f.pos):
+        return False
+    c = resolve(fi, f.left)
+    if not (isinstance(c, ast.Call) and chain(c.func) == f"{recv}.has"):
+        return False
+    a0, a1 = arg(c, 0, "prefix"), arg(c, 1, "number")
+    return a0 is not None and a1 is not None and norm(a0) == prefix and norm(a1) == number
+
+
+def _find_unclaimed(ctx: Ctx) -> None:
+    """RandomNumberCache.find_unclaimed_identifier: a number leaves the function only through the outcome `not has(prefix, number)`
+    of a test made after the number's last assignment; every other way out raises."""
+    fu = ctx.repo.method("RandomNumberCache", "find_unclaimed_identifier", RC)
+    cfg = ctx.cfg(fu)
+    p = fu.params()
+    rets = [r for r in walk_no_nested(fu.node) if isinstance(r, ast.Return)]
+    ok = bool(rets)
+    accept_all = []
+    for r in rets:
+        v = strip_cast(r.value) if r.value is not None else None
+        if not isinstance(v, ast.Name):
+            ok = False
+            continue
+        accept = [(n, lab) for n in cfg.nodes if n.kind == "cond" for lab in (True, False) if _has_fact(fu, fact_of(n.ast, lab), p[1], p[2], v.id)]
+        accept_all += accept
+
+        def cut(a, b, lab, accept=accept):
+            return any(a is n and lab is l for n, l in accept)
+        defs = [n for st, _, _ in local_defs(fu, v.id) for n in cfg.nodes_for(st)]
+        starts = [cfg.entry] + [s for d in defs for s, lab in d.succ if lab != "exc"]
+        reach = cfg.reach(starts, cut_edge=cut)
+        ok = ok and bool(accept) and not any(n in reach for n in cfg.nodes_for(r))
+    # exhaustion raises: no normal exit without an accepted number
+    ok = ok and cfg.exit not in cfg.reach(cut_edge=lambda a, b, lab: any(a is n and lab is l for n, l in accept_all))
+    ctx.check(ok, "duplicate-guard", fu, fu.node, "random identifier accepted only if not in use; exhaustion raises",
+              "find_unclaimed_identifier can return a number that is in use")
 
 
 def rule_shutdown(ctx: Ctx) -> None:
     fi = _impl(ctx, "shutdown")
     cfg = ctx.cfg(fi)
+
     def locked(n):
-        return any(isinstance(a, ast.With) and any(chain(i.context_expr) == "self.lock" for i in a.items) for a in ancestors(n))
+        return any(isinstance(a, (ast.With, ast.AsyncWith)) and any(chain(i.context_expr) == "self.lock" for i in a.items) for a in ancestors(n))
     flag = [s for s, t in stores(fi, "self._shutdown") if const_value(s.value) is True]
     cancel_all = calls(fi, "self.cancel_all_pending_tasks")
-    clears = calls(fi, "self._identifiers.clear")
-    fut_cancel = [c for c in calls(fi) if call_name(c) == "cancel" and any(isinstance(a, ast.For) and norm(a.iter).endswith(".managed_futures") for a in ancestors(c))]
-    outer = [l for l in walk_no_nested(fi.node) if isinstance(l, ast.For) and norm(l.iter) == "self._identifiers.values()"]
-    ok = bool(flag) and bool(cancel_all) and bool(clears) and bool(fut_cancel) and bool(outer) and all(locked(x) for x in flag + cancel_all + clears + fut_cancel)
+    clears = _tcalls(fi, "clear")
+    # <future>.cancel() for every future of every cache in the table, whatever the loop / comprehension spelling
+    fut_cancel = []
+    for c in calls(fi):
+        if call_name(c) == "cancel" and isinstance(c.func, ast.Attribute) and not c.args:
+            kind, loops = _site_kind(fi, c.func.value, {})
+            if kind == "future" and _complete(loops) and _only_done_guards(fi, facts_at(cfg, c), c.func.value):
+                fut_cancel.append(c)
+    reads = _tcalls(fi, "values") + _tcalls(fi, "items")
+    ok = bool(flag) and bool(cancel_all) and bool(clears) and bool(fut_cancel) and bool(reads) and all(locked(x) for x in flag + cancel_all + clears + fut_cancel + reads)
     ctx.check(ok, "shutdown", fi, fi.node, "shutdown: flag, cancel all tasks, cancel every tied future, clear table - all under the lock",
               "shutdown leaves timeouts armed, futures pending or the table populated")
     if ok:
@@ -184,10 +515,10 @@ def rule_shutdown(ctx: Ctx) -> None:
                   "_shutdown set before tasks are cancelled", "tasks are cancelled before the shutdown flag is set: a callback can re-add")
         cl = [n for c in clears for n in cfg.nodes_for(c)]
         after_clear = cfg.reach([v for n in cl for v, lab in n.succ])
-        ctx.check(not any(n in after_clear for l in outer for n in cfg.nodes_for(l)), "shutdown", fi, clears[0],
+        ctx.check(not any(n in after_clear for x in reads + fut_cancel for n in cfg.nodes_for(x)), "shutdown", fi, clears[0],
                   "tied futures are cancelled before the table is cleared", "the table is cleared before the tied futures are cancelled (nothing left to cancel)")
     clr = _impl(ctx, "clear")
-    ok = bool(calls(clr, "self.cancel_all_pending_tasks")) and bool(calls(clr, "self._identifiers.clear"))
+    ok = bool(calls(clr, "self.cancel_all_pending_tasks")) and bool(_tcalls(clr, "clear"))
     ctx.check(ok, "shutdown", clr, clr.node, "clear cancels all timeout tasks and empties the table", "clear leaves timeout tasks armed")
 
 
@@ -205,16 +536,22 @@ def rule_who(ctx: Ctx) -> None:
     ctx.check(bool(pops), "late-response", rf, rf.node, "retrieve_cache claims the cache with request_cache.pop",
               "retrieve_cache no longer pops the cache: the same request can be answered twice and its timeout still fires")
     for p in pops:
-        tr = next((a for a in ancestors(p) if isinstance(a, ast.Try)), None)
-        ok = tr is not None and any(chain(h.type) == "KeyError" and any(isinstance(s, ast.Return) and (s.value is None or const_value(s.value) is None) for s in h.body)
+        tr = next((a for a in ancestors(p) if isinstance(a, ast.Try) and any(p is x for b in a.body for x in ast.walk(b))), None)
+        ok = tr is not None and any(chain(h.type) == "KeyError" and any(isinstance(s, ast.Return) and _is_none(s.value) for s in h.body)
                                     for h in tr.handlers)
         ctx.check(ok, "late-response", rf, p, "retrieve_cache: missing cache -> KeyError -> handler not called, returns None",
                   "a response without an outstanding request reaches the handler (or raises)")
-        ok2 = norm(arg(p, 0)) == "cache_class.name" and norm(arg(p, 1)) == "payload.identifier"
+        a0, a1 = arg(p, 0, "prefix"), arg(p, 1, "number")
+        ok2 = a0 is not None and a1 is not None and norm(resolve(rf, a0)) == "cache_class.name" and norm(resolve(rf, a1)) == "payload.identifier"
         ctx.check(ok2, "late-response", rf, p, "cache matched by (cache_class.name, payload.identifier)", "retrieve_cache matches on something else")
     fcalls = [c for c in calls(rf, "func")]
     for c in fcalls:
-        ok = any(k.arg == "cache" and chain(k.value) == "cache" for k in c.keywords)
+        def popped(v) -> bool:
+            if any(strip_cast(resolve(rf, v)) is p for p in pops):
+                return True
+            return isinstance(v, ast.Name) and any(st is enclosing_stmt(p) and val is not None and strip_cast(val) is p
+                                                   for st, val, _ in local_defs(rf, v.id) for p in pops)
+        ok = any(k.arg == "cache" and popped(k.value) for k in c.keywords)
         cfg = ctx.cfg(rf)
         pn = [n for p in pops for n in cfg.nodes_for(p)]
         ok = ok and all(cfg.must_complete(n, pn) for n in cfg.nodes_for(c))
